@@ -238,7 +238,16 @@ func (np *NetworkPolicy) ruleSelectsPeer(rulePeers []netv1.NetworkPolicyPeer, pe
 			peerMatchesPodSelector := false
 			peerMatchesNamespaceSelector := false
 			var err error
-			if rulePeers[i].NamespaceSelector == nil {
+			if rulePeers[i].NamespaceSelector == nil && isPeerRepresentative(peer) {
+				// a nil namespaceSelector selects the policy's namespace; a representative peer carries this requirement in its
+				// RepresentativeNsLabelSelector - also when it was generated from an equivalent rule which names that namespace
+				// explicitly (such a peer has no Namespace string)
+				policyNsSelector := &metav1.LabelSelector{MatchLabels: map[string]string{common.K8sNsNameLabelKey: np.ObjectMeta.Namespace}}
+				peerMatchesNamespaceSelector, err = SelectorsFullMatch(policyNsSelector, peer.GetPeerPod().RepresentativeNsLabelSelector)
+				if err != nil {
+					return false, err
+				}
+			} else if rulePeers[i].NamespaceSelector == nil {
 				peerMatchesNamespaceSelector = (np.ObjectMeta.Namespace == peer.GetPeerPod().Namespace)
 			} else {
 				peerNamespace := peer.GetPeerNamespace()
